@@ -12,7 +12,7 @@ from .world import World, SHARED_OPS, Skip
 
 PROP = "C14"
 CLS = {"lganm": "LGANM", "nd": "NormalDistribution", "anm": "ANM"}
-WINDOW = 8          # earlier results re-checked after every step
+WINDOW = 16         # earlier results re-checked after every step
 
 
 # ===========================================================================
